@@ -37,6 +37,7 @@ import (
 	"sort"
 	"strconv"
 	"strings"
+	"time"
 
 	"github.com/hashicorp/go-hclog"
 	"github.com/hashicorp/raft"
@@ -197,6 +198,7 @@ type lchk struct {
 	d                        chkDef
 	tok                      string
 	isLocal, inSync, deleted bool
+	armed                    bool // deferred-output timer non-nil
 }
 
 func (e lsvc) live() bool { return !e.ghost && !e.deleted }
@@ -235,7 +237,7 @@ func (s snap) dump() string {
 		if e.ghost {
 			lc = append(lc, strings.Join([]string{hx.EncS(id), "G", hx.EncBool(e.inSync)}, "!"))
 		} else {
-			lc = append(lc, strings.Join([]string{hx.EncS(id), "E", e.d.enc(), hx.EncS(e.tok), hx.EncBool(e.isLocal), hx.EncBool(e.inSync), hx.EncBool(e.deleted)}, "!"))
+			lc = append(lc, strings.Join([]string{hx.EncS(id), "E", e.d.enc(), hx.EncS(e.tok), hx.EncBool(e.isLocal), hx.EncBool(e.inSync), hx.EncBool(e.deleted), hx.EncBool(e.armed)}, "!"))
 		}
 	}
 	for _, id := range sortedKeys(s.cs) {
@@ -293,6 +295,10 @@ type world struct {
 	// assumptions, so its lines are not compared; the monitors still judge the implementation)
 	silent bool
 	tokens *token.Store
+	// cui: CheckUpdateInterval > 0 (one hour: timers never expire by themselves, the harness makes
+	// them fire with explicit `fire` operations)
+	cui      bool
+	interval time.Duration
 }
 
 func newFSM() *fsm.FSM {
@@ -308,15 +314,19 @@ func newWorld(run *hx.Run, nodeVal int, cfgTok, userTok string) *world {
 }
 
 func newWorldACL(run *hx.Run, nodeVal int, cfgTok, userTok string, aclMode bool, agentTok string) *world {
+	return newWorldFull(run, nodeVal, cfgTok, userTok, aclMode, agentTok, 0)
+}
+
+func newWorldFull(run *hx.Run, nodeVal int, cfgTok, userTok string, aclMode bool, agentTok string, interval time.Duration) *world {
 	w := &world{run: run, nodeVal: nodeVal, cfgTok: cfgTok, userTok: userTok, f: newFSM(), idx: 10, faults: map[string]string{},
-		aclMode: aclMode, agentTok: agentTok}
+		aclMode: aclMode, agentTok: agentTok, cui: interval > 0, interval: interval}
 	tokens := new(token.Store)
 	tokens.UpdateAgentToken(agentTok, token.TokenSourceConfig)
 	tokens.UpdateUserToken(userTok, token.TokenSourceConfig)
 	tokens.UpdateConfigFileRegistrationToken(cfgTok, token.TokenSourceConfig)
 	w.st = local.NewState(local.Config{
 		AdvertiseAddr:       nodeAddr,
-		CheckUpdateInterval: 0,
+		CheckUpdateInterval: interval,
 		Datacenter:          "dc1",
 		NodeID:              nodeID,
 		NodeName:            nodeName,
@@ -328,7 +338,11 @@ func newWorldACL(run *hx.Run, nodeVal int, cfgTok, userTok string, aclMode bool,
 	if err := w.st.LoadMetadata(map[string]string{"v": strconv.Itoa(nodeVal)}); err != nil {
 		panic(err)
 	}
-	w.line(fmt.Sprintf("reset %d %s %s", nodeVal, hx.EncS(cfgTok), hx.EncS(userTok)), "ok")
+	if w.cui {
+		w.line(fmt.Sprintf("reset %d %s %s 1", nodeVal, hx.EncS(cfgTok), hx.EncS(userTok)), "ok")
+	} else {
+		w.line(fmt.Sprintf("reset %d %s %s", nodeVal, hx.EncS(cfgTok), hx.EncS(userTok)), "ok")
+	}
 	return w
 }
 
@@ -619,7 +633,7 @@ func (w *world) snapshot() snap {
 		}
 	}
 	for _, e := range chks {
-		if e.Defer {
+		if e.Defer && !w.cui {
 			panic("defer timer with CheckUpdateInterval = 0")
 		}
 		if e.Chk == nil {
@@ -628,7 +642,7 @@ func (w *world) snapshot() snap {
 				panic("definition-less check record that is not a plain placeholder")
 			}
 		} else {
-			s.lc[e.ID] = lchk{d: chkOf(e.Chk), tok: e.Token, isLocal: e.IsLocal, inSync: e.InSync, deleted: e.Deleted}
+			s.lc[e.ID] = lchk{d: chkOf(e.Chk), tok: e.Token, isLocal: e.IsLocal, inSync: e.InSync, deleted: e.Deleted, armed: e.Defer}
 		}
 	}
 	_, node, err := w.store().GetNode(nodeName, nil, "")
@@ -801,6 +815,31 @@ func (w *world) exec(o op) {
 		})
 		run.Tag("op:drmnode:" + res)
 		w.line("drmnode", res+" "+w.snapshot().dump())
+	case "fire":
+		// the deferred-output timer of a check expires (the real AfterFunc body runs)
+		cid := structs.NewCheckID(types.CheckID(o.id), nil)
+		armed, running := w.st.VerifDeferFire(cid)
+		if !armed {
+			return
+		}
+		if !running {
+			w.violate("defer:armed-timer-is-stopped-and-can-never-fire", fmt.Sprintf("check %q has a non-nil deferred-output timer that is not running: no output update will ever be pushed for it again", o.id))
+			return
+		}
+		fired := false
+		for i := 0; i < 20000 && !fired; i++ {
+			if e, ok := w.snapshot().lc[o.id]; !ok || !e.armed {
+				fired = true
+			} else {
+				time.Sleep(500 * time.Microsecond)
+			}
+		}
+		if !fired {
+			w.violate("defer:expired-timer-did-not-run", fmt.Sprintf("timer of check %q did not run within 10s of expiring", o.id))
+			return
+		}
+		run.Tag("op:fire")
+		w.line("fire "+hx.EncS(o.id), "ok "+w.snapshot().dump())
 	case "agenttok":
 		w.tokens.UpdateAgentToken(o.tok, token.TokenSourceAPI)
 		w.agentTok = o.tok
@@ -929,9 +968,30 @@ func (w *world) sync(o op) {
 	run.Tag(fmt.Sprintf("op:%s:%s:%s", o.kind, map[bool]string{true: "clean", false: "faulty"}[clean], res))
 	w.line(fmt.Sprintf("%s %s %s %s", o.kind, encFaults(lineFaults), hx.EncSList(so), hx.EncSList(co)), res+" "+post.dump())
 	w.monitors(o.kind, pre, post, calls, clean, res)
+	w.probeTimers(o.kind + " sync")
 }
 
 // ---------------------------------------------------------------- monitors
+
+// probeTimers: every armed (non-nil) deferred-output timer must be a running one — otherwise the
+// check is stuck: UpdateCheck starts no new timer while one is set, and a stopped one never fires.
+func (w *world) probeTimers(after string) {
+	if !w.cui {
+		return
+	}
+	s := w.snapshot()
+	for _, k := range sortedKeys(s.lc) {
+		if !s.lc[k].armed {
+			continue
+		}
+		armed, running := w.st.VerifDeferProbe(structs.NewCheckID(types.CheckID(k), nil), w.interval)
+		if armed && !running {
+			w.violate("defer:armed-timer-is-stopped-and-can-never-fire", fmt.Sprintf("after %s check %q has a non-nil deferred-output timer that is not running: no output update will ever be pushed for it again", after, k))
+		} else if armed {
+			w.run.Tag("monitor:defer:armed-timer-is-running")
+		}
+	}
+}
 
 func (w *world) violate(sig, desc string) {
 	w.run.Violate(sig, desc, append([]string(nil), w.ops...))
@@ -1015,8 +1075,15 @@ func (w *world) monitors(kind string, pre, post snap, calls []call, clean bool, 
 		readsOK = true
 	}
 
+	anyArmed := false
+	for _, e := range pre.lc {
+		anyArmed = anyArmed || e.armed
+	}
+	if kind == "full" && clean && wf && anyArmed {
+		w.run.Tag("monitor:converge:skipped(defer timer armed, output deliberately not compared)")
+	}
 	// converge
-	if kind == "full" && clean && wf {
+	if kind == "full" && clean && wf && !anyArmed {
 		w.run.Tag("monitor:converge:checked")
 		if res != "ok" {
 			w.violate("converge:clean-full-sync-reports-error", "a full sync in which no RPC failed returned an error")
@@ -1078,6 +1145,9 @@ func (w *world) monitors(kind string, pre, post snap, calls []call, clean bool, 
 				if pe, was := pre.lc[id]; was && pe.live() && pe.inSync && !chkHeld(pre, id, pe.d) {
 					continue
 				}
+				if pe, was := pre.lc[id]; e.armed || (was && pe.armed) {
+					continue // output deliberately ignored while the defer timer is armed
+				}
 				if c, ok := chkCall[id]; ok && c.outcome == "denied" {
 					w.run.Tag("monitor:sound:refused-check-marked")
 					continue
@@ -1118,6 +1188,9 @@ func (w *world) monitors(kind string, pre, post snap, calls []call, clean bool, 
 		}
 		if r, ok := pre.cc[id]; kind == "full" && readsOK && ok && e.live() && r.equal(e.d) {
 			continue
+		}
+		if r, ok := pre.cc[id]; kind == "full" && readsOK && ok && e.live() && pe.armed && r.sid == e.d.sid && r.status%3 == e.d.status%3 {
+			continue // compared with the Output blanked while the defer timer is armed
 		}
 		w.violate("justify:check-in-sync-without-successful-or-refused-rpc", fmt.Sprintf("check %q turned in sync in a %s sync without an ok/refused RPC", id, kind))
 	}
@@ -1281,6 +1354,27 @@ func genFaults(r *hx.RNG, s snap) map[string]string {
 func (w *world) genOp(r *hx.RNG) op {
 	s := w.snapshot()
 	x := r.Intn(100)
+	if w.cui && r.Chance(30) {
+		var armed []string
+		for _, k := range sortedKeys(s.lc) {
+			if s.lc[k].armed {
+				armed = append(armed, k)
+			}
+		}
+		if len(armed) > 0 && r.Chance(40) {
+			return op{kind: "fire", id: hx.Pick(r, armed)}
+		}
+		if k, ok := pickLive(r, s.lc); ok {
+			cur := s.lc[k].d.status
+			if cur < 0 || cur > 5 {
+				cur = 0
+			}
+			if r.Chance(65) {
+				return op{kind: "updchk", id: k, val: (cur + 3) % 6} // output only
+			}
+			return op{kind: "updchk", id: k, val: r.Intn(6)}
+		}
+	}
 	switch {
 	case x < 18: // register a service, possibly with checks, as agent.addServiceInternal does
 		id := hx.Pick(r, svcPool)
@@ -1411,6 +1505,16 @@ func (w *world) genOp(r *hx.RNG) op {
 }
 
 func (w *world) finishCase() {
+	if w.cui {
+		// every armed timer fires, then the clean full syncs must converge (output included)
+		s := w.snapshot()
+		for _, k := range sortedKeys(s.lc) {
+			if s.lc[k].armed {
+				w.exec(op{kind: "fire", id: k})
+			}
+		}
+		defer w.st.VerifStopAllDefer()
+	}
 	// repair after failure: one sync with whatever faults came before, then clean full syncs
 	w.exec(op{kind: "full"})
 	w.exec(op{kind: "full"})
@@ -1420,7 +1524,10 @@ func (w *world) finishCase() {
 
 func randomCase(run *hx.Run, r *hx.RNG, maxOps int) {
 	var w *world
-	if r.Chance(35) {
+	if r.Chance(25) {
+		w = newWorldFull(run, 1+r.Intn(2), hx.Pick(r, []string{"", "cfgtok"}), hx.Pick(r, []string{"", "usertok", "t1"}), false, "agent-token", time.Hour)
+		run.Tag("case:deferred-check-output(CheckUpdateInterval>0)")
+	} else if r.Chance(35) {
 		agentTok := "agent-token"
 		if r.Chance(25) {
 			agentTok = "weak-agent"
@@ -1569,6 +1676,40 @@ func scripted(run *hx.Run) {
 		w.finishCase()
 		run.Tag("scripted:refused-deregistration-real-acl-then-token-fixed")
 	}
+	// 11. deferred check output (CheckUpdateInterval > 0, timers fired explicitly): an output-only update
+	//     arms the timer; a status flip inside the window is pushed (timer stopped and cleared); further
+	//     output-only updates must arm a fresh timer, which fires, and the next full sync pushes the output
+	{
+		w := newWorldFull(run, 1, "", "", false, "agent-token", time.Hour)
+		w.exec(op{kind: "addsvc", id: "web", sd: web, chks: []chkItem{{"c1", c1}}})
+		w.exec(op{kind: "full"})
+		w.exec(op{kind: "updchk", id: "c1", val: 3}) // output only
+		w.exec(op{kind: "updchk", id: "c1", val: 4}) // status flip
+		w.exec(op{kind: "partial"})
+		w.exec(op{kind: "updchk", id: "c1", val: 1}) // output only again
+		w.exec(op{kind: "updchk", id: "c1", val: 4})
+		w.finishCase()
+		// armed timer seen by a full sync (output ignored), then it fires
+		w = newWorldFull(run, 1, "", "", false, "agent-token", time.Hour)
+		w.exec(op{kind: "addsvc", id: "web", sd: web, chks: []chkItem{{"c1", c1}}})
+		w.exec(op{kind: "full"})
+		w.exec(op{kind: "updchk", id: "c1", val: 3})
+		w.exec(op{kind: "full"})
+		w.exec(op{kind: "dchk", id: "c1", cd: chkDef{sid: "web", status: 1}}) // drift while armed
+		w.exec(op{kind: "full"})
+		w.exec(op{kind: "updchk", id: "c1", val: 0})
+		w.exec(op{kind: "rmchk", id: "c1"}) // removed while armed
+		w.exec(op{kind: "full", faults: map[string]string{"c!c1": "fail"}})
+		w.exec(op{kind: "addchk", id: "c1", cd: c1}) // re-registered over the pending removal: timer handed over
+		w.finishCase()
+		run.Tag("scripted:deferred-output")
+	}
+	// 12. (monitor only, real time) the same with a real 150 ms interval and no explicit firing: after
+	//     waiting well past the interval no timer may be left armed, and one more full sync must
+	//     bring the check's output into the catalog
+	for i := 0; i < 2; i++ {
+		realTimeDefer(run)
+	}
 	// 8. (monitor only) ids that differ only in case: the catalog lower-cases ids in its index keys, the
 	//    agent's maps do not. Known finding; outside the model's assumptions, so no lines are compared.
 	{
@@ -1589,6 +1730,39 @@ func scripted(run *hx.Run) {
 		run.Case("case-fold-foreign-variant", true)
 		run.Tag("case-fold-scenario(monitor-only)")
 	}
+}
+
+func realTimeDefer(run *hx.Run) {
+	web := svcDef{name: "web", tags: []string{"a"}, port: 80}
+	w := newWorldFull(run, 1, "", "", false, "agent-token", 150*time.Millisecond)
+	w.silent = true
+	defer w.st.VerifStopAllDefer()
+	w.exec(op{kind: "addsvc", id: "web", sd: web, chks: []chkItem{{"c1", chkDef{sid: "web", status: 0, sname: "web", stags: []string{"a"}}}}})
+	w.exec(op{kind: "full"})
+	w.st.UpdateCheck(structs.NewCheckID("c1", nil), statuses[0], "o1") // output only: arms the timer
+	w.st.UpdateCheck(structs.NewCheckID("c1", nil), statuses[1], "o1") // status flip inside the window
+	_ = w.st.SyncChanges()                                             // pushed
+	w.st.UpdateCheck(structs.NewCheckID("c1", nil), statuses[1], "o0") // output only again
+	deadline := time.Now().Add(5 * time.Second)
+	for time.Now().Before(deadline) {
+		if e := w.snapshot().lc["c1"]; !e.armed {
+			break
+		}
+		time.Sleep(5 * time.Millisecond)
+	}
+	if e := w.snapshot().lc["c1"]; e.armed {
+		w.violate("defer:timer-still-armed-long-after-the-interval", "check c1 still has a deferred-output timer 5s after an output-only update with CheckUpdateInterval=150ms")
+	}
+	w.calls, w.faults = nil, map[string]string{}
+	if err := w.st.SyncFull(); err != nil {
+		w.violate("converge:clean-full-sync-reports-error", "real-time defer scenario: full sync failed: "+err.Error())
+	}
+	s := w.snapshot()
+	if l, c := s.lc["c1"], s.cc["c1"]; l.d.status != c.status {
+		w.violate("defer:check-output-never-reaches-the-catalog", fmt.Sprintf("after the defer interval and a successful full sync the catalog holds status/output %d for check c1, the agent %d", c.status, l.d.status))
+	}
+	run.Tag("scripted:deferred-output-real-time(monitor-only)")
+	run.Case("real-time-defer", true)
 }
 
 // fault vectors over a fixed small scenario with 7 RPCs: every vector of {ok,denied,fail}^7 in the
